@@ -45,6 +45,11 @@ func runC09(r *fw.Run, p *fw.Program) {
 	c09JQ(r, p)
 	c09Err(r, p)
 	c09Borrowed(r, p)
+	{
+		sc := r.Scratch()
+		c01BufState(sc, p)
+		r.Import(sc, "C01.bufstate", "C09.bufstate", "tostring/tohex/raw output of a concatenation read the bit string through bitio.Buffer (the fifo of the byte view): WriteBits makes room for exactly BitsByteCount(bufBits+nBits) bytes and the stored bits are never moved except by the decided reset of an empty buffer (C01.bufstate obligations)", 5, nil)
+	}
 	r.Assumption("C09: two distinct pointer/reader parameters of one function do not alias; math/big, bytes.Buffer and builtin min behave as documented")
 }
 
